@@ -21,6 +21,8 @@ for d in sorted(x for x in (ROOT / "seeded").iterdir() if x.is_dir()):
                 mech = r["mechanisms"][0].split(":")[0].replace("mechanism=", "") + ":" + ":".join(r["mechanisms"][0].split(":")[1:2])[:40]
     det = ", ".join(m.get("detected_by", [])) or "**missed**"
     note = " (missed at first; check strengthened)" if missed_first and m["property"] in m.get("detected_by", []) else ""
+    if m.get("neutralised_by"):
+        note += f" (no longer a break on HEAD: repository fix {m['neutralised_by']} removes its mechanism)"
     print(f"| {d.name} | {m['property']} | {m['needs_to_manifest'][:170]} | {det}{note} | `{mech[:60]}` |")
 
 table = _out.getvalue()
